@@ -35,6 +35,7 @@ type WorkerOut struct {
 	RunHashes    map[string]string        `json:"run_hashes,omitempty"`
 	WallS        float64                  `json:"wall_s"`
 	StoppedEarly bool                     `json:"stopped_early"`
+	Partial      bool                     `json:"partial,omitempty"` // written before the batch ended (the worker may die later)
 }
 
 type ViolationRec struct {
@@ -318,6 +319,14 @@ func TestWorker(t *testing.T) {
 			}
 			path := writeReplay(replayDir, prop, seed, tier, mr, vv, tp, min, len(out.Violations))
 			out.Violations = append(out.Violations, ViolationRec{Violation: vv, Index: idx, Replay: path, Minimised: min, Reruns: reruns})
+			// a violation found is kept even if this process dies in a later run (hang, kill, out of memory)
+			if outPath != "" {
+				out.Partial = true
+				if b, err := json.Marshal(out); err == nil {
+					_ = os.WriteFile(outPath, b, 0o644)
+				}
+				out.Partial = false
+			}
 		}
 		if len(seenViol)-nKnown >= maxViol {
 			out.StoppedEarly = true
